@@ -2567,6 +2567,10 @@ def _tensordot_via_fused(a, b, left_axes, axes_a, axes_b, right_axes):
     af = AbelianArray.fuse(a, left_axes, axes_a, expand_empty=False)
     bf = AbelianArray.fuse(b, axes_b, right_axes, expand_empty=False)
 
+    # only groups of several axes are actually fused (and need unfusing)
+    unfuse_left = len(left_axes) > 1
+    unfuse_right = len(right_axes) > 1
+
     # handle potential vector and scalar cases
     left_axes, axes_a = {
         (False, False): ((), ()),  # left scalar
@@ -2585,10 +2589,12 @@ def _tensordot_via_fused(a, b, left_axes, axes_a, axes_b, right_axes):
     # tensordot the fused blocks
     cf = _tensordot_blockwise(af, bf, left_axes, axes_a, axes_b, right_axes)
 
-    # unfuse result into (*left_axes, *right_axes)
-    for ax in reversed(range(cf.ndim)):
-        if cf.indices[ax].subinfo is not None:
-            AbelianArray.unfuse(cf, ax, inplace=True)
+    # unfuse result into (*left_axes, *right_axes), n.b. only what was fused
+    # above: a single free axis keeps any subindex information of its own
+    if unfuse_right:
+        AbelianArray.unfuse(cf, cf.ndim - 1, inplace=True)
+    if unfuse_left:
+        AbelianArray.unfuse(cf, 0, inplace=True)
 
     return cf
 
